@@ -1,5 +1,12 @@
 package simrt
 
+import (
+	"os"
+	"runtime"
+	"strings"
+	"sync"
+)
+
 // Strategy decides context switches in generation mode. Decisions that differ from the default
 // rule are recorded as deviations by the world; replay never consults a strategy.
 type Strategy interface {
@@ -216,12 +223,180 @@ func (s *Windows) PickBlocked(w *World, t *Task) *Task {
 	return s.buf[w.schedRng.Intn(len(s.buf))]
 }
 
+// Sites: site-targeted preemption. A scheduling *site* is the innermost frame outside the simulator
+// (the line of instrumented code that performs the lock / atomic / channel / clock operation). Per
+// run a salted hash of the site's name ("function:line", independent of the binary's layout) makes
+// about one site in Mod "hot"; the running task is preempted at hot sites with probability
+// HotNum/HotDen and almost never elsewhere, so a run concentrates its switches on a handful of
+// places (say, the CASes of the drain-status protocol, or the gap between a table update and the
+// write-buffer offer) and hits the same window again and again. Sites only *generate* deviations;
+// the recorded schedule is the usual (task, point, to) list, so replay never looks at a PC.
+type Sites struct {
+	Salt           uint64
+	Mod            uint64
+	HotNum, HotDen int
+	ColdDen        int
+	buf            []*Task
+	HotHits        uint64
+}
+
+type siteKey [6]uintptr
+
+var (
+	siteMu    sync.Mutex
+	siteNames = map[siteKey]uint64{} // pure memo: PCs -> hash of the site's name
+)
+
+// siteHash returns the hash of the name of the innermost non-simulator frame of the caller.
+func siteHash() uint64 {
+	var k siteKey
+	n := runtime.Callers(5, k[:])
+	siteMu.Lock()
+	h, ok := siteNames[k]
+	siteMu.Unlock()
+	if ok {
+		return h
+	}
+	name := "?"
+	fr := runtime.CallersFrames(k[:n])
+	for {
+		f, more := fr.Next()
+		if f.Function != "" && !strings.HasPrefix(f.Function, "verifsim/") && !strings.HasPrefix(f.Function, "runtime.") {
+			name = f.Function + ":" + itoa(f.Line)
+			break
+		}
+		if !more {
+			break
+		}
+	}
+	h = HashString(name)
+	siteMu.Lock()
+	siteNames[k] = h
+	siteMu.Unlock()
+	return h
+}
+
+func itoa(n int) string {
+	if n == 0 {
+		return "0"
+	}
+	var b [20]byte
+	i := len(b)
+	for n > 0 {
+		i--
+		b[i] = byte('0' + n%10)
+		n /= 10
+	}
+	return string(b[i:])
+}
+
+func (s *Sites) Name() string          { return "sites" }
+func (s *Sites) Init(*World)           {}
+func (s *Sites) OnSpawn(*World, *Task) {}
+func (s *Sites) OnWake(*World, *Task)  {}
+func (s *Sites) OnSpin(*World, *Task)  {}
+func (s *Sites) PickPoint(w *World, t *Task) *Task {
+	hot := Mix(s.Salt, siteHash())%s.Mod == 0
+	if hot {
+		s.HotHits++
+		if !w.schedRng.Chance(s.HotNum, s.HotDen) {
+			return t
+		}
+	} else if !w.schedRng.Chance(1, s.ColdDen) {
+		return t
+	}
+	s.buf = w.Runnable(t, s.buf)
+	if len(s.buf) == 0 {
+		return t
+	}
+	return s.buf[w.schedRng.Intn(len(s.buf))]
+}
+func (s *Sites) PickBlocked(w *World, t *Task) *Task {
+	s.buf = w.Runnable(t, s.buf)
+	if len(s.buf) == 0 {
+		return nil
+	}
+	return s.buf[w.schedRng.Intn(len(s.buf))]
+}
+
+// OpSites: the same idea without looking at the stack. A site is (kind of the operation the task is
+// executing, number of scheduling points the task has passed since that operation began); the n-th
+// point of a Set is - until paths diverge - the same place in the code every time a Set runs, so a
+// hot (kind, n) pair preempts every such operation of the run in the same window. Background tasks
+// (maintenance, reloads) count from their start. Costs nothing per point beyond one hash.
+type OpSites struct {
+	Salt           uint64
+	Mod            uint64
+	HotNum, HotDen int
+	ColdDen        int
+	buf            []*Task
+}
+
+// BeginOp marks the start of an operation of the given kind on the current task (harness only).
+func BeginOp(kind uint64) {
+	if w := W; w != nil && w.cur != nil {
+		w.cur.opKind, w.cur.opBase = kind, w.cur.points
+	}
+}
+
+func (s *OpSites) Name() string          { return "op-sites" }
+func (s *OpSites) Init(*World)           {}
+func (s *OpSites) OnSpawn(*World, *Task) {}
+func (s *OpSites) OnWake(*World, *Task)  {}
+func (s *OpSites) OnSpin(*World, *Task)  {}
+func (s *OpSites) PickPoint(w *World, t *Task) *Task {
+	if Mix(s.Salt^t.opKind, t.points-t.opBase)%s.Mod == 0 {
+		if !w.schedRng.Chance(s.HotNum, s.HotDen) {
+			return t
+		}
+	} else if !w.schedRng.Chance(1, s.ColdDen) {
+		return t
+	}
+	s.buf = w.Runnable(t, s.buf)
+	if len(s.buf) == 0 {
+		return t
+	}
+	return s.buf[w.schedRng.Intn(len(s.buf))]
+}
+func (s *OpSites) PickBlocked(w *World, t *Task) *Task {
+	s.buf = w.Runnable(t, s.buf)
+	if len(s.buf) == 0 {
+		return nil
+	}
+	return s.buf[w.schedRng.Intn(len(s.buf))]
+}
+
+var forceStrategy = os.Getenv("VERIF_STRATEGY") // development aid: pin the strategy of every run
+
 // DrawStrategy picks a strategy for a run from the schedule stream (swarm).
 func DrawStrategy(r *Rng, horizon uint64) Strategy {
 	if horizon < 200 {
 		horizon = 200
 	}
-	switch r.Intn(10) {
+	pickN := r.Intn(13)
+	switch forceStrategy {
+	case "sites":
+		pickN = 99
+	case "opsites":
+		pickN = 11
+	case "walk":
+		pickN = 0
+	case "pct":
+		pickN = 3
+	case "bursts":
+		pickN = 6
+	case "windows":
+		pickN = 8
+	}
+	switch pickN {
+	case 10, 11, 12:
+		mods := []uint64{4, 8, 16, 32, 64}
+		hot := []int{1, 2, 2, 3, 4}
+		return &OpSites{Salt: r.Uint64(), Mod: mods[r.Intn(len(mods))], HotNum: 1, HotDen: hot[r.Intn(len(hot))], ColdDen: 128 << uint(r.Intn(4))}
+	case 99: // stack-based sites cost about 1 us per point: development aid only (VERIF_STRATEGY=sites)
+		mods := []uint64{3, 6, 12, 24, 48}
+		hot := []int{2, 2, 3, 4, 8}
+		return &Sites{Salt: r.Uint64(), Mod: mods[r.Intn(len(mods))], HotNum: 1, HotDen: hot[r.Intn(len(hot))], ColdDen: 256 << uint(r.Intn(3))}
 	case 0, 1, 2:
 		dens := []int{2, 4, 8, 16, 32, 64, 128, 512}
 		return &RandomWalk{Num: 1, Den: dens[r.Intn(len(dens))]}
@@ -229,6 +404,8 @@ func DrawStrategy(r *Rng, horizon uint64) Strategy {
 		return &PCT{D: r.Intn(7), Horizon: horizon}
 	case 6, 7:
 		return &Bursts{K: 1 + r.Intn(6), Horizon: horizon}
+	case 8, 9:
+		fallthrough
 	default:
 		return &Windows{N: 1 + r.Intn(4), Len: uint64(10 + r.Intn(120)), Horizon: horizon, Num: 1, Den: 2 + r.Intn(4)}
 	}
